@@ -4,6 +4,7 @@ mod modes;
 mod prog;
 mod term;
 mod valmode;
+mod trackmode;
 mod witness;
 
 fn arg<T: std::str::FromStr>(args: &[String], name: &str, default: T) -> T {
@@ -21,6 +22,7 @@ fn main() {
         "witness" => { witness::run(); return }
         "val" => { valmode::run(&a); return }
         "c19" => { valmode::run_c19(&a); return }
+        "c14t" => { trackmode::run(&a); return }
         "c20" => { valmode::run_c20(&a); return }
         "tables" => { valmode::dump_tables(&a.out); return }
         "c06nest" => { let d: usize = args[2].parse().unwrap(); let k: usize = args[3].parse().unwrap(); modes::c06_nest(d, k, &args[4]); return }
